@@ -89,6 +89,12 @@ class Loop:
                 self.acc_if = n
         if self.acc_if is None:
             raise AnalysisError("the acceptance call is not the test of an if statement")
+        # the body of that `if` is the accept branch only when the test is the call itself
+        t = self.acc_if.test
+        self.acc_polarity_ok = t is self.acc_call or (isinstance(t, ast.Compare) and t.left is self.acc_call
+                                                      and isinstance(t.ops[0], (ast.Is, ast.Eq))
+                                                      and isinstance(t.comparators[0], ast.Constant)
+                                                      and t.comparators[0].value is True)
         # energy function: callee of the definition of e1
         self.energy = None
         self.proposal = None
@@ -206,7 +212,18 @@ def r9_1(ctx: Ctx, L: Loop, rule="R9.1"):
                 and pdefs[0].ast.lineno < a.lineno
         facts1.append("%s%s" % (norm(a), "" if good else " (not energy(proposal) right after the proposal's definition)"))
         ok_e1 &= bool(good)
-    # no definition from a previous iteration reaches the acceptance call
+    # every proposal built in the loop is evaluated in its own block (otherwise a stale energy from an
+    # earlier iteration reaches the acceptance call)
+    for s in walk_no_nested(L.loop):
+        if isinstance(s, ast.Assign) and norm(s.targets[0]) == L.proposal:
+            blk = _block_of(s, L.pm) or []
+            later = [x for x in blk[blk.index(s) + 1:] if isinstance(x, ast.Assign) and norm(x.targets[0]) == L.e1
+                     and isinstance(x.value, ast.Call) and norm(x.value.func) == L.energy and x.value.args
+                     and norm(x.value.args[0]) == L.proposal] if s in blk else []
+            ctx.ob(rule, f, s, bool(later),
+                   "the proposal built here is evaluated (`%s = %s(%s)`) before the acceptance test" % (L.e1, L.energy, L.proposal)
+                   + ("" if later else " -- no evaluation follows: the acceptance test would use an energy left over "
+                      "from an earlier iteration"), node=s)
     ctx.ob(rule, f, "definitions of `%s` reaching the acceptance call" % L.e1, ok_e1 and len(defs1) >= 1,
            "the second argument is the energy of the proposal built in the same iteration, evaluated directly "
            "after the proposal is built" + ("" if ok_e1 else " -- %s" % facts1), node=L.acc_call, definitions=facts1)
@@ -232,9 +249,12 @@ def r9_2(ctx: Ctx, L: Loop, rule="R9.2"):
     body = L.acc_if.body
     st_h = [s for s in body if isinstance(s, ast.Assign) and norm(s.targets[0]) == L.held and norm(s.value) == L.proposal]
     st_e = [s for s in body if isinstance(s, ast.Assign) and norm(s.targets[0]) == L.e0 and norm(s.value) == L.e1]
-    ctx.ob(rule, f, L.acc_if, len(st_h) == 1 and len(st_e) == 1,
-           "the accept branch rebinds, unconditionally and together, held := proposal and held energy := proposal energy"
-           + ("" if st_e else " -- the held energy is not updated on acceptance"), node=L.acc_if)
+    ctx.ob(rule, f, L.acc_if, len(st_h) == 1 and len(st_e) == 1 and L.acc_polarity_ok,
+           "the branch taken when the acceptance rule answers True rebinds, unconditionally and together, "
+           "held := proposal and held energy := proposal energy"
+           + ("" if st_e else " -- the held energy is not updated on acceptance")
+           + ("" if L.acc_polarity_ok else " -- the update sits in the branch taken when the proposal is REJECTED "
+              "(test is `%s`)" % norm(L.acc_if.test)), node=L.acc_if)
     # no other rebinding of held / held energy inside the loop
     other = []
     for s in walk_no_nested(L.loop):
@@ -307,7 +327,17 @@ def r9_3(ctx: Ctx, L: Loop, rule="R9.3"):
                     and cdef.args and norm(cdef.args[0]) == L.held \
                     and any(k.arg == "axis" and const_int(k.value) == 0 for k in cdef.keywords)
                 rdef = _def_in_block(L, s, a1)
-                r_ok = rdef is not None and isinstance(rdef, ast.Call) and L.target(rdef) == "rotation_matrix"
+                r_ok = rdef is not None and isinstance(rdef, ast.Call) and L.target(rdef) == "rotation_matrix" \
+                    and len(rdef.args) == 2
+                if r_ok:
+                    ax = _def_in_block(L, s, rdef.args[0]) if isinstance(rdef.args[0], ast.Name) else rdef.args[0]
+                    th = _def_in_block(L, s, rdef.args[1]) if isinstance(rdef.args[1], ast.Name) else rdef.args[1]
+                    # axis: a random 3-vector; angle: a random scalar
+                    ax_vec = isinstance(ax, ast.Call) and "random" in L.full_target(ax) and any(
+                        isinstance(a_, ast.Constant) and a_.value == 3 for a_ in list(ax.args) + [k.value for k in ax.keywords])
+                    th_sc = isinstance(th, ast.Call) and "random" in L.full_target(th) and not any(
+                        isinstance(a_, ast.Constant) and a_.value == 3 for a_ in list(th.args[2:]) + [k.value for k in th.keywords if k.arg == "size"])
+                    r_ok = ax_vec and th_sc
                 kind, ok = "rotation", centred and c_ok and r_ok
                 detail = "centred=%s centre=%s matrix=%s" % (centred, norm(cdef) if cdef is not None else None,
                                                              norm(rdef) if rdef is not None else None)
